@@ -14,7 +14,8 @@ use lightning_signer::bitcoin;
 use lightning_signer::lightning;
 
 use bitcoin::absolute::LockTime;
-use bitcoin::bip32::{ChildNumber, DerivationPath, Xpriv, Xpub};
+use bitcoin::bip32::{ChildNumber, DerivationPath, Fingerprint, Xpriv, Xpub};
+use bitcoin::psbt::Psbt;
 use bitcoin::hashes::Hash;
 use bitcoin::key::{CompressedPublicKey, TweakedPublicKey, UntweakedPublicKey};
 use bitcoin::secp256k1::ecdsa::Signature;
@@ -22,7 +23,7 @@ use bitcoin::secp256k1::{All, Message, PublicKey, Secp256k1, SecretKey};
 use bitcoin::sighash::{EcdsaSighashType, SighashCache};
 use bitcoin::transaction::Version;
 use bitcoin::{
-    Address, Amount, Network, OutPoint, PubkeyHash, ScriptBuf, ScriptHash, Sequence, Transaction,
+    Address, Amount, BlockHash, Network, OutPoint, PubkeyHash, ScriptBuf, ScriptHash, Sequence, Transaction,
     TxIn, TxOut, Txid, WPubkeyHash, WScriptHash, Witness,
 };
 use lightning::ln::chan_utils::{
@@ -33,13 +34,22 @@ use lightning::ln::chan_utils::{
 use lightning::ln::channel_keys::{DelayedPaymentBasepoint, HtlcBasepoint, RevocationBasepoint};
 use lightning::sign::ChannelSigner;
 use lightning::types::payment::PaymentHash;
+use bitcoin::taproot::TapLeafHash;
 use lightning_signer::channel::{Channel, ChannelBase, ChannelId, ChannelSetup, CommitmentType};
+use lightning_signer::node::Node;
 use lightning_signer::tx::tx::HTLCInfo2;
 use lightning_signer::util::status::Status;
 use lightning_signer::wallet::Wallet;
 use serde_json::{json, Value};
 use std::collections::BTreeSet;
+use std::sync::Arc;
 use std::time::Instant;
+use vls_protocol::model::{Bip32KeyVersion, PubKey};
+use vls_protocol::msgs::{self, Message as WireMessage};
+use vls_protocol::psbt::PsbtWrapper;
+use vls_protocol::serde_bolt::{ArrayBE, Octets, WithSize};
+use vls_protocol_signer::approver::PositiveApprover;
+use vls_protocol_signer::handler::{ChannelHandler, Error as HandlerError, Handler, InitHandler, RootHandler};
 use vls_verif::oracle::commitment_secret;
 use vls_verif::report::{self, finish, run_sharded, FinishSpec};
 use vls_verif::world::{World, WorldCfg};
@@ -266,6 +276,11 @@ fn closing_weight_bounds(tx: &Transaction) -> (u64, u64) {
 
 struct ChanGhost {
     id: ChannelId,
+    /// what the node (and so a protocol handler's client) knows the channel by
+    peer_id: [u8; 33],
+    dbid: u64,
+    /// protocol handlers of this channel (one per protocol version) on the CURRENT node object
+    handlers: Vec<(u32, ChannelHandler)>,
     setup: ChannelSetup,
     holder_funding: PublicKey,
     cp: CpKeys,
@@ -849,6 +864,9 @@ fn open_channel(
     r.count(if is_outbound { "setup.outbound" } else { "setup.inbound" });
     Some(ChanGhost {
         id,
+        peer_id: peer,
+        dbid,
+        handlers: vec![],
         setup,
         holder_funding: base.funding_pubkey,
         cp,
@@ -1195,7 +1213,16 @@ fn build_phase1(a: &Assign, ch: &ChanGhost, rng: &mut Rng, muts: &mut Vec<&'stat
     }
     if a.to_cp > 0 {
         if let Some(s) = &a.cp_script {
-            let p = if rng.chance(1, 6) { path1(rng.below(50) as u32) } else { DerivationPath::master() };
+            // the counterparty's output normally has no path; sometimes a random one, sometimes the
+            // neighbour of the holder's (the path that would fit a holder script sent with a wrong path)
+            let p = match rng.below(8) {
+                0 => path1(rng.below(50) as u32),
+                1 | 2 => match a.path.into_iter().next().map(|c| u32::from(*c)) {
+                    Some(k) if a.path.len() == 1 && k > 0 && k < (1 << 31) => path1(k - 1),
+                    _ => path1(rng.below(50) as u32),
+                },
+                _ => DerivationPath::master(),
+            };
             outs.push((a.to_cp, s.clone(), p));
         }
     }
@@ -1378,6 +1405,246 @@ fn sig_over(secp: &Secp256k1<All>, ch: &ChanGhost, tx: &Transaction, sig: &Signa
 }
 
 // ---------------------------------------------------------------------------------------------
+// the protocol-handler entry: the same requests as wire messages to the channel's ChannelHandler
+
+fn make_channel_handler(node: &Arc<Node>, version: u32, peer_id: [u8; 33], dbid: u64) -> ChannelHandler {
+    let mut init = InitHandler::new(0, node.clone(), Arc::new(PositiveApprover()), version);
+    let msg = WireMessage::HsmdInit(msgs::HsmdInit {
+        key_version: Bip32KeyVersion { pubkey_version: 0x043587CF, privkey_version: 0x04358394 },
+        chain_params: BlockHash::all_zeros(),
+        encryption_key: None,
+        dev_privkey: None,
+        dev_bip32_seed: None,
+        dev_channel_secrets: None,
+        dev_channel_secrets_shaseed: None,
+        hsm_wire_min_version: 2,
+        hsm_wire_max_version: version,
+    });
+    init.handle(msg).expect("hsmd init");
+    let root: RootHandler = init.into();
+    root.for_new_client(1, PubKey(peer_id), dbid)
+}
+
+/// How a phase-1 request travels: next to the transaction a PSBT whose outputs carry the key path of
+/// each output (bip32 derivation or taproot key origin; nothing = the empty path), and the
+/// counterparty's funding key
+struct WireP1 {
+    psbt: Psbt,
+    remote_funding_key: PublicKey,
+    encoding: Vec<&'static str>,
+}
+
+impl WireP1 {
+    fn json(&self) -> Value {
+        let outs: Vec<Value> = self
+            .psbt
+            .outputs
+            .iter()
+            .map(|o| {
+                json!({
+                    "bip32_derivation": o.bip32_derivation.iter().map(|(k, (f, p))| json!([k.to_string(), f.to_string(), path_json(p)])).collect::<Vec<_>>(),
+                    "tap_key_origins": o.tap_key_origins.iter().map(|(k, (h, (f, p)))| json!([k.to_string(), h.len(), f.to_string(), path_json(p)])).collect::<Vec<_>>(),
+                })
+            })
+            .collect();
+        json!({"psbt_unsigned_tx": bitcoin::consensus::encode::serialize_hex(&self.psbt.unsigned_tx),
+               "psbt_outputs": outs, "path_encoding": self.encoding,
+               "remote_funding_key": self.remote_funding_key.to_string()})
+    }
+}
+
+/// keys named in the PSBT's key sources (the handler reads only the path next to them)
+fn psbt_key(rng: &mut Rng, secp: &Secp256k1<All>) -> PublicKey {
+    static POOL: std::sync::OnceLock<Vec<PublicKey>> = std::sync::OnceLock::new();
+    let pool = POOL.get_or_init(|| {
+        (1u8..=32).map(|i| PublicKey::from_secret_key(secp, &SecretKey::from_slice(&[i; 32]).expect("key"))).collect()
+    });
+    pool[rng.usize(pool.len())]
+}
+
+fn wire_phase1(
+    tx: &Transaction,
+    opaths: &[DerivationPath],
+    ch: &ChanGhost,
+    rng: &mut Rng,
+    secp: &Secp256k1<All>,
+    muts: &mut Vec<&'static str>,
+) -> Result<WireP1, String> {
+    // the PSBT is that of the transaction itself; only a request with a wrong number of paths needs a
+    // PSBT with a different number of outputs
+    let mut ptx = tx.clone();
+    while ptx.output.len() > opaths.len() {
+        ptx.output.pop();
+    }
+    while ptx.output.len() < opaths.len() {
+        ptx.output.push(TxOut { value: Amount::from_sat(1000), script_pubkey: ScriptBuf::new_p2wpkh(&WPubkeyHash::from_byte_array(rng.bytes::<20>())) });
+    }
+    let mut psbt = Psbt::from_unsigned_tx(ptx).map_err(|e| format!("{:?}", e))?;
+    let mut encoding = vec![];
+    // the handler gives up (`unimplemented!`) on an output with two key sources or with tap leaves: a few
+    // of those, always with the same path on both so that the request keeps one meaning
+    let odd = if !opaths.is_empty() && rng.chance(1, 150) { Some((rng.usize(opaths.len()), rng.bool())) } else { None };
+    for (i, p) in opaths.iter().enumerate() {
+        let pk = psbt_key(rng, secp);
+        let src = (Fingerprint::from(rng.bytes::<4>()), p.clone());
+        let style = if p.is_empty() { rng.below(5) } else { rng.below(4) + 5 };
+        let o = &mut psbt.outputs[i];
+        match style {
+            0 => {
+                o.bip32_derivation.insert(pk, src.clone());
+                encoding.push("bip32-derivation-with-empty-path");
+            }
+            1 => {
+                o.tap_key_origins.insert(pk.x_only_public_key().0, (vec![], src.clone()));
+                encoding.push("tap-key-origin-with-empty-path");
+            }
+            2..=4 => encoding.push("nothing"),
+            5 => {
+                o.tap_key_origins.insert(pk.x_only_public_key().0, (vec![], src.clone()));
+                encoding.push("tap-key-origin");
+            }
+            _ => {
+                o.bip32_derivation.insert(pk, src.clone());
+                encoding.push("bip32-derivation");
+            }
+        }
+        if let Some((j, two)) = odd {
+            if j == i {
+                let pk2 = loop {
+                    let k = psbt_key(rng, secp);
+                    if k != pk {
+                        break k;
+                    }
+                };
+                if two {
+                    if o.tap_key_origins.is_empty() {
+                        o.bip32_derivation.insert(pk, src.clone());
+                        o.bip32_derivation.insert(pk2, src.clone());
+                    } else {
+                        o.tap_key_origins.insert(pk2.x_only_public_key().0, (vec![], src.clone()));
+                    }
+                    muts.push("h1-two-key-sources-on-one-output");
+                } else {
+                    o.bip32_derivation.clear();
+                    o.tap_key_origins.clear();
+                    o.tap_key_origins.insert(pk.x_only_public_key().0, (vec![TapLeafHash::from_byte_array(rng.bytes::<32>())], src.clone()));
+                    muts.push("h1-tap-key-origin-with-leaf-hash");
+                }
+            }
+        }
+    }
+    // the handler has no use for this field; it is the real key except now and then
+    let remote_funding_key = if rng.chance(1, 10) {
+        muts.push("h1-foreign-remote-funding-key");
+        PublicKey::from_secret_key(secp, &rand_sk(rng))
+    } else {
+        ch.setup.counterparty_points.funding_pubkey
+    };
+    Ok(WireP1 { psbt, remote_funding_key, encoding })
+}
+
+fn wire_path(p: &DerivationPath) -> Vec<u32> {
+    p.into_iter().map(|c| u32::from(*c)).collect()
+}
+
+/// a missing script is an empty byte string on the wire, the path a list of u32 (empty = no path)
+fn wire_phase2(a: &Assign) -> msgs::SignMutualCloseTx2 {
+    msgs::SignMutualCloseTx2 {
+        to_local_value_sat: a.to_holder,
+        to_remote_value_sat: a.to_cp,
+        local_script: Octets(a.holder_script.as_ref().map(|s| s.to_bytes()).unwrap_or_default()),
+        remote_script: Octets(a.cp_script.as_ref().map(|s| s.to_bytes()).unwrap_or_default()),
+        local_wallet_path_hint: ArrayBE(wire_path(&a.path)),
+    }
+}
+
+fn handler_err(e: &HandlerError) -> String {
+    match e {
+        HandlerError::Signing(s) | HandlerError::Temporary(s) => short_err(s),
+        HandlerError::Protocol(p) => format!("protocol error: {:?}", p),
+    }
+}
+
+enum Req {
+    P1 { tx: Transaction, opaths: Vec<DerivationPath>, wire: Option<WireP1> },
+    P2 { a: Assign },
+}
+
+/// Send the request: straight to the channel (`via` = None) or as a wire message to a protocol handler of
+/// the given protocol version.  The handler's reply carries the signature and its sighash type.
+fn issue(world: &World, ch: &mut ChanGhost, via: Option<u32>, req: &Req, r: &mut Report) -> Result<(Signature, Option<u8>), Outcome> {
+    let v = match via {
+        None => {
+            return match req {
+                Req::P1 { tx, opaths, .. } => run_chan(world, &ch.id, |chan| chan.sign_mutual_close_tx(tx, opaths)).map(|s| (s, None)),
+                Req::P2 { a } => run_chan(world, &ch.id, |chan| {
+                    chan.sign_mutual_close_tx_phase2(a.to_holder, a.to_cp, &a.holder_script, &a.cp_script, &a.path)
+                })
+                .map(|s| (s, None)),
+            }
+        }
+        Some(v) => v,
+    };
+    let (name, msg) = match req {
+        Req::P1 { tx, wire, .. } => {
+            let w = wire.as_ref().expect("wire form of the phase-1 request");
+            (
+                "SignMutualCloseTx",
+                WireMessage::SignMutualCloseTx(msgs::SignMutualCloseTx {
+                    tx: WithSize(tx.clone()),
+                    psbt: WithSize(PsbtWrapper { inner: w.psbt.clone() }),
+                    remote_funding_key: PubKey(w.remote_funding_key.serialize()),
+                }),
+            )
+        }
+        Req::P2 { a } => ("SignMutualCloseTx2", WireMessage::SignMutualCloseTx2(wire_phase2(a))),
+    };
+    // a handler lives as long as the node object it was made for (a restart makes a new one)
+    ch.handlers.retain(|(_, h)| Arc::ptr_eq(h.node(), &world.node));
+    if !ch.handlers.iter().any(|(hv, _)| *hv == v) {
+        let (node, peer_id, dbid) = (world.node.clone(), ch.peer_id, ch.dbid);
+        match report::catch(|| make_channel_handler(&node, v, peer_id, dbid)) {
+            Ok(h) => {
+                r.count("handler.created");
+                ch.handlers.push((v, h));
+            }
+            Err(p) => {
+                r.inconclusive(&format!("cannot set up a protocol handler (version {}): {}", v, p));
+                return Err(Outcome::Panic(p));
+            }
+        }
+    }
+    let h = &ch.handlers.iter().find(|(hv, _)| *hv == v).expect("handler").1;
+    let got = report::catch(|| h.handle(msg));
+    match got {
+        Ok(Ok(reply)) => match reply.as_any().downcast_ref::<msgs::SignTxReply>() {
+            Some(rep) => match Signature::from_compact(&rep.signature.signature.0) {
+                Ok(sig) => {
+                    r.count(&format!("handler.{}.ok", name));
+                    Ok((sig, Some(rep.signature.sighash)))
+                }
+                Err(e) => {
+                    r.inconclusive(&format!("handler {}: signature in the reply does not parse: {}", name, e));
+                    Err(Outcome::Refused("unparseable reply".into()))
+                }
+            },
+            None => {
+                r.inconclusive(&format!("handler {}: reply is not a SignTxReply", name));
+                Err(Outcome::Refused("unexpected reply type".into()))
+            }
+        },
+        Ok(Err(e)) => {
+            r.count(&format!("handler.{}.refused", name));
+            Err(Outcome::Refused(handler_err(&e)))
+        }
+        Err(p) => {
+            r.count(&format!("handler.{}.panic", name));
+            Err(Outcome::Panic(p))
+        }
+    }
+}
+
+// ---------------------------------------------------------------------------------------------
 // one closing attempt: request, outcome, oracle, closed-flag checks
 
 struct Env<'a> {
@@ -1456,7 +1723,7 @@ fn check_closed(
     r.count("rule.closed.flag_checked");
     match run_chan(world, &ch.id, |chan| Ok(chan.enforcement_state.channel_closed)) {
         Ok(true) => {}
-        Ok(false) => r.violation("c07:not-marked-closed-after-signing", witness(env, wg, ch, entry, request.clone(), json!({"enforcement_state.channel_closed": false}))),
+        Ok(false) => r.violation("c07:not-marked-closed-after-signing", witness(env, wg, ch, &entry, request.clone(), json!({"enforcement_state.channel_closed": false}))),
         Err(_) => {
             r.inconclusive("cannot read channel after close");
             return false;
@@ -1466,7 +1733,7 @@ fn check_closed(
     r.count("rule.closed.persisted_checked");
     match persisted_closed(world, ch) {
         Some(true) => {}
-        Some(false) => r.violation("c07:closed-flag-not-persisted", witness(env, wg, ch, entry, request.clone(), json!({"persisted ChannelEntry.enforcement_state.channel_closed": false}))),
+        Some(false) => r.violation("c07:closed-flag-not-persisted", witness(env, wg, ch, &entry, request.clone(), json!({"persisted ChannelEntry.enforcement_state.channel_closed": false}))),
         None => r.inconclusive("persisted channel entry not found / not parseable"),
     }
     let deep = !ch.first_ok_checked || rng.chance(1, 10);
@@ -1478,7 +1745,7 @@ fn check_closed(
     match probe_new_holder_commitment(world, ch, wg, rng, secp) {
         Some(Ok(())) => {
             r.count("rule.closed.probe_done");
-            r.violation("c07:new-holder-commitment-accepted-after-close", witness(env, wg, ch, entry, request.clone(), json!({"validate_holder_commitment_tx_phase2(next)": "Ok", "restarted": false})));
+            r.violation("c07:new-holder-commitment-accepted-after-close", witness(env, wg, ch, &entry, request.clone(), json!({"validate_holder_commitment_tx_phase2(next)": "Ok", "restarted": false})));
         }
         Some(Err(Outcome::Refused(e))) => {
             r.count("rule.closed.probe_done");
@@ -1500,14 +1767,14 @@ fn check_closed(
         r.count("rule.closed.restart_checked");
         match run_chan(world, &ch.id, |chan| Ok(chan.enforcement_state.channel_closed)) {
             Ok(true) => {}
-            Ok(false) => r.violation("c07:closed-flag-lost-on-restart", witness(env, wg, ch, entry, request.clone(), json!({"after restart enforcement_state.channel_closed": false}))),
+            Ok(false) => r.violation("c07:closed-flag-lost-on-restart", witness(env, wg, ch, &entry, request.clone(), json!({"after restart enforcement_state.channel_closed": false}))),
             Err(_) => {
-                r.violation("c07:closed-flag-lost-on-restart", witness(env, wg, ch, entry, request.clone(), json!({"after restart": "channel missing or not ready"})));
+                r.violation("c07:closed-flag-lost-on-restart", witness(env, wg, ch, &entry, request.clone(), json!({"after restart": "channel missing or not ready"})));
                 return true;
             }
         }
         match probe_new_holder_commitment(world, ch, wg, rng, secp) {
-            Some(Ok(())) => r.violation("c07:closed-flag-lost-on-restart", witness(env, wg, ch, entry, request.clone(), json!({"validate_holder_commitment_tx_phase2(next)": "Ok", "restarted": true}))),
+            Some(Ok(())) => r.violation("c07:closed-flag-lost-on-restart", witness(env, wg, ch, &entry, request.clone(), json!({"validate_holder_commitment_tx_phase2(next)": "Ok", "restarted": true}))),
             Some(Err(Outcome::Refused(_))) => r.count("rule.closed.restart_probe_refused"),
             Some(Err(Outcome::Panic(p))) => {
                 r.note(&format!("probe panicked: {}", p));
@@ -1543,59 +1810,92 @@ fn close_attempt(world: &mut World, wg: &mut WorldGhost, ch: &mut ChanGhost, rng
     r.count(&format!("attempt.value.{}", lab.value_class));
     r.count(&format!("attempt.fee.{}", lab.fee_class));
 
-    // --- issue the request
-    let entry: &'static str;
+    // --- issue the request: straight to the channel, or as a wire message through a protocol handler
+    let via: Option<u32> = if rng.chance(1, 2) { Some(4 + rng.below(3) as u32) } else { None };
+    let entry: String;
     let request: Value;
     let cands: Vec<Assign>;
     let submitted: Option<Transaction>;
-    let res: Result<Signature, Outcome>;
+    let req: Req;
     if phase1 {
-        entry = "sign_mutual_close_tx";
         let (tx, opaths) = build_phase1(&a, ch, rng, &mut lab.muts);
+        let wire = match via {
+            Some(_) => match wire_phase1(&tx, &opaths, ch, rng, secp, &mut lab.muts) {
+                Ok(w) => Some(w),
+                Err(e) => {
+                    r.inconclusive(&format!("cannot build the PSBT of a closing transaction: {}", e));
+                    return true;
+                }
+            },
+            None => None,
+        };
+        entry = match via {
+            Some(v) => format!("protocol handler (version {}): SignMutualCloseTx", v),
+            None => "sign_mutual_close_tx".to_string(),
+        };
         request = json!({"tx": bitcoin::consensus::encode::serialize_hex(&tx),
                          "outputs": tx.output.iter().map(|o| json!([o.value.to_sat(), o.script_pubkey.to_hex_string()])).collect::<Vec<_>>(),
                          "opaths": opaths.iter().map(path_json).collect::<Vec<_>>(),
+                         "wire": wire.as_ref().map(|w| w.json()),
                          "intended": a.json(), "mutations": lab.muts,
                          "labels": [lab.script_kind, lab.value_class, lab.fee_class]});
+        if let Some(w) = &wire {
+            for e in &w.encoding {
+                r.count(&format!("handler.wire.SignMutualCloseTx.output_path_as.{}", e));
+            }
+        }
+        // the reference reads the request as the property does: the transaction's outputs, each with the
+        // path that the request gives for it
         cands = phase1_candidates(&tx, &opaths);
-        // one attempt in eight meets a store that is unavailable for one write ("temporarily unavailable, might
-        // work later"): the request fails without a signature and the node sends it again
-        let inject = rng.chance(1, 8);
-        if inject {
-            world.store.arm_faults(0, 1);
+        // the case that tells whether each output is checked against ITS OWN path: a holder script sent with
+        // the wrong path while the path that fits it sits on the other output
+        if lab.script_kind.ends_with("wrong-path") && opaths.len() == 2 && a.path.len() == 1 {
+            let k = u32::from(a.path[0]);
+            if k > 0 && opaths.iter().any(|p| *p == path1(k - 1)) {
+                r.count(if via.is_some() { "antecedent.fitting_path_on_the_other_output.handler" } else { "antecedent.fitting_path_on_the_other_output.direct" });
+            }
         }
-        let first = run_chan(world, &ch.id, |chan| chan.sign_mutual_close_tx(&tx, &opaths));
-        let fired = if inject { world.store.disarm_faults() } else { 0 };
-        res = if fired > 0 && !matches!(first, Ok(_)) {
-            r.count("storage_fault.close_request_failed_at_the_store_and_was_retried");
-            run_chan(world, &ch.id, |chan| chan.sign_mutual_close_tx(&tx, &opaths))
-        } else {
-            first
-        };
-        submitted = Some(tx);
+        submitted = Some(tx.clone());
+        req = Req::P1 { tx, opaths, wire };
     } else {
-        entry = "sign_mutual_close_tx_phase2";
-        request = json!({"args": a.json(), "mutations": lab.muts, "labels": [lab.script_kind, lab.value_class, lab.fee_class]});
-        cands = vec![a.clone()];
-        let a2 = a.clone();
-        let inject = rng.chance(1, 8);
-        if inject {
-            world.store.arm_faults(0, 1);
-        }
-        let first = run_chan(world, &ch.id, |chan| {
-            chan.sign_mutual_close_tx_phase2(a2.to_holder, a2.to_cp, &a2.holder_script, &a2.cp_script, &a2.path)
-        });
-        let fired = if inject { world.store.disarm_faults() } else { 0 };
-        res = if fired > 0 && !matches!(first, Ok(_)) {
-            r.count("storage_fault.close_request_failed_at_the_store_and_was_retried");
-            run_chan(world, &ch.id, |chan| {
-                chan.sign_mutual_close_tx_phase2(a2.to_holder, a2.to_cp, &a2.holder_script, &a2.cp_script, &a2.path)
-            })
-        } else {
-            first
+        entry = match via {
+            Some(v) => format!("protocol handler (version {}): SignMutualCloseTx2", v),
+            None => "sign_mutual_close_tx_phase2".to_string(),
         };
+        let wire = via.map(|_| {
+            let m = wire_phase2(&a);
+            r.count(if m.local_script.0.is_empty() { "handler.wire.SignMutualCloseTx2.local_script.empty" } else { "handler.wire.SignMutualCloseTx2.local_script.present" });
+            r.count(if m.remote_script.0.is_empty() { "handler.wire.SignMutualCloseTx2.remote_script.empty" } else { "handler.wire.SignMutualCloseTx2.remote_script.present" });
+            r.count(if m.local_wallet_path_hint.0.is_empty() { "handler.wire.SignMutualCloseTx2.path_hint.empty" } else { "handler.wire.SignMutualCloseTx2.path_hint.present" });
+            json!({"to_local_value_sat": m.to_local_value_sat, "to_remote_value_sat": m.to_remote_value_sat,
+                   "local_script": hex::encode(&m.local_script.0), "remote_script": hex::encode(&m.remote_script.0),
+                   "local_wallet_path_hint": m.local_wallet_path_hint.0})
+        });
+        request = json!({"args": a.json(), "wire": wire, "mutations": lab.muts, "labels": [lab.script_kind, lab.value_class, lab.fee_class]});
+        cands = vec![a.clone()];
         submitted = None;
+        req = Req::P2 { a: a.clone() };
     }
+    if let Some(v) = via {
+        r.count(&format!("handler.protocol_version.{}", v));
+    }
+    // one attempt in eight meets a store that is unavailable for one write ("temporarily unavailable, might
+    // work later"): the request fails without a signature and the node sends it again
+    let inject = rng.chance(1, 8);
+    if inject {
+        world.store.arm_faults(0, 1);
+    }
+    let first = issue(world, ch, via, &req, r);
+    let fired = if inject { world.store.disarm_faults() } else { 0 };
+    let res: Result<(Signature, Option<u8>), Outcome> = if fired > 0 && !matches!(first, Ok(_)) {
+        r.count("storage_fault.close_request_failed_at_the_store_and_was_retried");
+        if via.is_some() {
+            r.count("storage_fault.handler_request_failed_at_the_store_and_was_retried");
+        }
+        issue(world, ch, via, &req, r)
+    } else {
+        first
+    };
     for m in &lab.muts {
         r.count(&format!("attempt.mutation.{}", m));
     }
@@ -1614,7 +1914,12 @@ fn close_attempt(world: &mut World, wg: &mut WorldGhost, ch: &mut ChanGhost, rng
         }
     }
     let okk = matches!(res, Ok(_));
-    let ep = if phase1 { "p1" } else { "p2" };
+    let ep = match (phase1, via.is_some()) {
+        (true, false) => "p1",
+        (false, false) => "p2",
+        (true, true) => "h1",
+        (false, true) => "h2",
+    };
     r.count(&format!("close.{}.{}", ep, match &res { Ok(_) => "ok", Err(Outcome::Refused(_)) => "refused", _ => "panic" }));
     r.count(&format!("matrix.reference_{}.signer_{}", if allowed { "allows" } else { "forbids" }, if okk { "signed" } else { "did_not_sign" }));
     // hostile classes: requests the reference forbids, by first reason
@@ -1635,7 +1940,7 @@ fn close_attempt(world: &mut World, wg: &mut WorldGhost, ch: &mut ChanGhost, rng
         "{}|{}|{}|{}|{}|{}|{}|{}",
         ep, ch.setup.is_outbound, ch.setup.holder_shutdown_script.is_some(), ch.state_class, lab.script_kind, verdict, ch.closed, okk
     ));
-    ch.log(json!({"op": entry, "request": request, "res": match &res { Ok(s) => format!("Ok({})", s), Err(Outcome::Refused(e)) => e.clone(), Err(Outcome::Panic(p)) => format!("panic: {}", p), Err(Outcome::Ok) => String::new() }}));
+    ch.log(json!({"op": entry, "request": request, "res": match &res { Ok((s, _)) => format!("Ok({})", s), Err(Outcome::Refused(e)) => e.clone(), Err(Outcome::Panic(p)) => format!("panic: {}", p), Err(Outcome::Ok) => String::new() }}));
 
     match res {
         Err(Outcome::Refused(e)) => {
@@ -1651,7 +1956,7 @@ fn close_attempt(world: &mut World, wg: &mut WorldGhost, ch: &mut ChanGhost, rng
             recover(world, r)
         }
         Err(Outcome::Ok) => true,
-        Ok(sig) => {
+        Ok((sig, reply_sighash)) => {
             ch.closed = true;
             if r.samples.len() < 4 {
                 r.sample(json!({"entry_point": entry, "request": request, "result": format!("Ok({})", sig),
@@ -1660,7 +1965,7 @@ fn close_attempt(world: &mut World, wg: &mut WorldGhost, ch: &mut ChanGhost, rng
             // which assignment do we judge? the explicit one, or the best of the two readings
             let bi = best.unwrap_or(0);
             if cands.is_empty() {
-                r.violation("c07:signed-with-more-than-two-outputs", witness(env, wg, ch, entry, request.clone(), json!({"sig": sig.to_string()})));
+                r.violation("c07:signed-with-more-than-two-outputs", witness(env, wg, ch, &entry, request.clone(), json!({"sig": sig.to_string()})));
             } else {
                 // per-clause antecedent counters
                 r.count("rule.htlc.ok_checked");
@@ -1677,7 +1982,7 @@ fn close_attempt(world: &mut World, wg: &mut WorldGhost, ch: &mut ChanGhost, rng
                 }
                 if !evals[bi].is_empty() {
                     let all: Vec<Value> = cands.iter().zip(evals.iter()).map(|(c, e)| json!({"assignment": c.json(), "failed_clauses": e})).collect();
-                    r.violation(evals[bi][0], witness(env, wg, ch, entry, request.clone(), json!({"sig": sig.to_string(), "assignments": all})));
+                    r.violation(evals[bi][0], witness(env, wg, ch, &entry, request.clone(), json!({"sig": sig.to_string(), "assignments": all})));
                 }
                 // the signature must be over the canonical closing tx spending the funding outpoint
                 let canon = canonical_closing_tx(ch.setup.funding_outpoint, &cands[bi].outs());
@@ -1692,18 +1997,28 @@ fn close_attempt(world: &mut World, wg: &mut WorldGhost, ch: &mut ChanGhost, rng
                     r.inconclusive("hand-built canonical closing tx differs from LDK's ClosingTransaction");
                 }
                 r.count("rule.signature.checked");
-                if !sig_over(secp, ch, &canon, &sig) {
-                    r.violation("c07:signature-not-over-canonical-closing-tx", witness(env, wg, ch, entry, request.clone(),
+                if via.is_some() {
+                    r.count("rule.signature.checked_on_handler_reply");
+                }
+                // a closing signature is SIGHASH_ALL; the handler's reply says which type it goes with
+                if reply_sighash.map(|b| b != EcdsaSighashType::All as u8).unwrap_or(false) {
+                    r.violation("c07:signature-not-over-canonical-closing-tx", witness(env, wg, ch, &entry, request.clone(),
+                        json!({"sig": sig.to_string(), "sighash_type_in_reply": reply_sighash, "canonical_tx": bitcoin::consensus::encode::serialize_hex(&canon)})));
+                } else if !sig_over(secp, ch, &canon, &sig) {
+                    r.violation("c07:signature-not-over-canonical-closing-tx", witness(env, wg, ch, &entry, request.clone(),
                         json!({"sig": sig.to_string(), "canonical_tx": bitcoin::consensus::encode::serialize_hex(&canon)})));
                 } else {
                     r.count("rule.signature.verified");
                 }
                 if noncanonical {
-                    r.violation("c07:signed-noncanonical-closing-tx", witness(env, wg, ch, entry, request.clone(),
+                    r.violation("c07:signed-noncanonical-closing-tx", witness(env, wg, ch, &entry, request.clone(),
                         json!({"sig": sig.to_string(), "canonical_tx": bitcoin::consensus::encode::serialize_hex(&canon)})));
                 }
             }
-            check_closed(world, wg, ch, rng, env, entry, &request, r)
+            if via.is_some() {
+                r.count("rule.closed.checked_after_handler_request");
+            }
+            check_closed(world, wg, ch, rng, env, &entry, &request, r)
         }
     }
 }
@@ -1806,6 +2121,29 @@ fn main() {
     report.require("close.p2.ok", 150);
     report.require("close.p1.refused", 150);
     report.require("close.p2.refused", 150);
+    // the same through the protocol handler (h1 = SignMutualCloseTx, h2 = SignMutualCloseTx2)
+    report.require("close.h1.ok", 150);
+    report.require("close.h2.ok", 150);
+    report.require("close.h1.refused", 150);
+    report.require("close.h2.refused", 150);
+    report.require("handler.SignMutualCloseTx.ok", 150);
+    report.require("handler.SignMutualCloseTx2.ok", 150);
+    report.require("handler.SignMutualCloseTx.refused", 150);
+    report.require("handler.SignMutualCloseTx2.refused", 150);
+    report.require("handler.protocol_version.4", 100);
+    report.require("handler.protocol_version.5", 100);
+    report.require("handler.protocol_version.6", 100);
+    report.require("handler.wire.SignMutualCloseTx.output_path_as.bip32-derivation", 100);
+    report.require("handler.wire.SignMutualCloseTx.output_path_as.tap-key-origin", 100);
+    report.require("handler.wire.SignMutualCloseTx.output_path_as.nothing", 100);
+    report.require("handler.wire.SignMutualCloseTx2.local_script.empty", 20);
+    report.require("handler.wire.SignMutualCloseTx2.remote_script.empty", 20);
+    report.require("handler.wire.SignMutualCloseTx2.path_hint.empty", 100);
+    report.require("handler.wire.SignMutualCloseTx2.path_hint.present", 100);
+    report.require("rule.signature.checked_on_handler_reply", 300);
+    report.require("rule.closed.checked_after_handler_request", 300);
+    report.require("storage_fault.handler_request_failed_at_the_store_and_was_retried", 20);
+    report.require("antecedent.fitting_path_on_the_other_output.handler", 50);
     report.require("antecedent.attempt_with_pending_htlc", 100);
     report.require("antecedent.forbidden.holder-output-to-unknown-script", 50);
     report.require("antecedent.forbidden.upfront-shutdown-script-ignored", 20);
@@ -1829,13 +2167,14 @@ fn main() {
         FinishSpec {
             cli: &cli,
             level: "exploration",
-            rule: "channels (both directions, upfront shutdown script none/wallet/allowlisted/xpub-child, StaticRemoteKey and AnchorsZeroFeeHtlc, policies with epsilon 0..40000 and several fee ranges) advanced by real counter-signed holder commitments + revocations and signed counterparty commitments into pairs of current commitments (equal, within eps, apart <=2eps, apart >2eps, HTLCs in either/both, HTLC only in a not-yet-current one), allowlist edited by add/remove/set; closing requests through sign_mutual_close_tx and sign_mutual_close_tx_phase2. Oracle on Ok: exists assignment (explicit for phase 2) with no HTLC in either ghost-current commitment, 0 <= fee with rate in [min-1,max+1] on own weight bounds, non-funder value within eps of both ghost commitments, holder script wallet-derivable at path or allowlisted now and equal to upfront script, signature verifies under the funding key over the hand-built canonical closing tx; afterwards channel_closed in memory and in the persisted ChannelEntry, a new counter-signed holder commitment refused, also after restart. distinct = (entry point, direction, upfront fixed?, class of the pair of current commitments, holder destination kind, reference verdict = first failed clause or allowed, closed before?, outcome)",
+            rule: "channels (both directions, upfront shutdown script none/wallet/allowlisted/xpub-child, StaticRemoteKey and AnchorsZeroFeeHtlc, policies with epsilon 0..40000 and several fee ranges) advanced by real counter-signed holder commitments + revocations and signed counterparty commitments into pairs of current commitments (equal, within eps, apart <=2eps, apart >2eps, HTLCs in either/both, HTLC only in a not-yet-current one), allowlist edited by add/remove/set; closing requests through sign_mutual_close_tx and sign_mutual_close_tx_phase2, half of them straight to the channel and half as wire messages SignMutualCloseTx (tx + PSBT whose outputs carry the paths as bip32 derivation / tap key origin / nothing, + remote funding key) and SignMutualCloseTx2 (empty bytes = no script, u32 list = path) to a ChannelHandler of protocol version 4, 5 or 6, the signature taken from SignTxReply (its sighash type must be ALL). Oracle on Ok (the same for all four entries): exists assignment (explicit for phase 2) with no HTLC in either ghost-current commitment, 0 <= fee with rate in [min-1,max+1] on own weight bounds, non-funder value within eps of both ghost commitments, holder script wallet-derivable at path or allowlisted now and equal to upfront script, signature verifies under the funding key over the hand-built canonical closing tx; afterwards channel_closed in memory and in the persisted ChannelEntry, a new counter-signed holder commitment refused, also after restart. distinct = (entry point p1/p2/h1/h2, direction, upfront fixed?, class of the pair of current commitments, holder destination kind, reference verdict = first failed clause or allowed, closed before?, outcome)",
             assumptions: vec![
                 "LDK chan_utils (commitment/closing tx construction for the workload and the cross-check), rust-bitcoin (sighash, bip32, addresses) and libsecp256k1 are trusted".into(),
                 "ghost-current commitments = last holder commitment that became current (activate/revoke Ok) and last counterparty commitment signed; a validated but not yet revoked-into holder commitment does not count".into(),
                 "the wallet is identified by the node's account xpub (get_account_extended_pubkey); allowlist ghost is updated only on acknowledged add/remove/set with well-formed entries".into(),
                 "fee-rate clause is lenient: flags only rate computed on the heaviest weight > max+1 or on the lightest weight < min-1".into(),
                 "panics of the signer are counted and reported in observed_sets.panics, not judged by this property".into(),
+                "a wire request means what its fields say: output i of SignMutualCloseTx.tx has the path found on output i of the PSBT (nothing = empty path; the PSBT's own unsigned tx equals tx except when the number of paths is wrong on purpose), SignMutualCloseTx.remote_funding_key has no meaning for the property; a PSBT output with two key sources or tap leaf hashes makes the handler give up (unimplemented!), counted as handler.SignMutualCloseTx.panic".into(),
             ],
             start,
             extra_coverage: Default::default(),
